@@ -101,6 +101,17 @@ P_C16_output == (IsSummary /\ E.out > 0 /\ E.final > 0) =>
       /\ \A s \in Range1(O.segs) : s.form = FormMap(F)[s.id]
       /\ \A s \in Range1(O.slots) : s.form = FormMap(F)[s.id]
       /\ <<O.obj.unserved, O.obj.viol, O.obj.nveh, O.obj.costs>> = CachedObjective(F)
+\* C15: the transition optimisation returns cycles over the same vehicles whose violation, then
+\* counter, is not worse than what it was given (both recomputed from tours and cycles)
+TypeCounter(N, S, ty) == CounterTotal(N, TourMap(S), CyclesOf(S, ty))
+P_C15_opt == (IsSummary /\ E.transopt > 0 /\ E.ls > 0) =>
+   LET A == Rec[E.ls].S
+       B == Rec[E.transopt].S
+   IN \A t \in Range1(B.tr) :
+         /\ VehOfType(B, t.ty) = VehOfType(A, t.ty)
+         /\ Range1(FoldLeft(LAMBDA acc, c : acc \o c.v, << >>, t.cyc)) = VehOfType(A, t.ty)
+         /\ LexLeq(<<TypeViolation(NetE, B, t.ty), TypeCounter(NetE, B, t.ty)>>,
+                   <<TypeViolation(NetE, A, t.ty), TypeCounter(NetE, A, t.ty)>>)
 \* all stages were observed (no stage silently skipped)
 P_C16_stages == IsSummary => (E.mcf > 0 /\ E.start > 0 /\ E.ls > 0 /\ E.transopt > 0 /\ E.final > 0 /\ E.out > 0)
 =============================================================================
